@@ -166,40 +166,9 @@ def gen_stream(rng, specs, big=False, p_valid=0.45, p_mut=0.4, mid=0.1, p_over=0
         data = E.encode(nodes)
     if r < p_valid:
         if rng.random() < p_over:
-            # make the direct parent of the last element unknown-size in half of the cases (overrun checks must look through it)
-            chain = []
-            ns = nodes
-            while ns and ns[-1].is_master():
-                chain.append(ns[-1])
-                ns = ns[-1].children
-            if len(chain) >= 2 and ns and rng.random() < 0.6 and not any(isinstance(x, tuple) for x in sp.get_path(chain[-1].tag[1])):
-                old_enc = chain[-1].enc
-                chain[-1].enc = "u"
-                if isinstance(chain[-2].enc, tuple) or chain[-2].enc == "u":
-                    chain[-2].enc = None
-                try:
-                    if E.unambiguous(sp, nodes):
-                        data = E.encode(nodes)
-                    else:
-                        chain[-1].enc = old_enc
-                except AssertionError:
-                    chain[-1].enc = old_enc
-                    nodes = strip_enc(nodes)
-                    data = E.encode(nodes)
-            # overrun: the last element (in byte order) declares g bytes more than it has room for and the bytes are present:
-            # it overruns every known-size ancestor, whatever lies between (unknown-size masters included)
-            items = []
-            E.encode(nodes, 0, items)
-            last = [(t, o) for (t, o) in items if t[0] not in "se"]
-            if last:
-                t, o = last[-1]
-                h = E.header_at(data, o)
-                if h and h[3] == 1 and h[2] is not None and o + h[1] + 1 + h[2] == len(data):
-                    g = rng.choice([1, 2, 3])
-                    if h[2] + g < 127 and not (sp.get_type(t[1]) in "UIF" and h[2] + g > 8):
-                        b = bytearray(data)
-                        b[o + h[1]] = 0x80 | (h[2] + g)
-                        return sp, bytes(b) + bytes(rng.getrandbits(8) for _ in range(g)), "overrun", None
+            r2 = make_overrun(rng, sp, nodes)
+            if r2:
+                return sp, r2[0], "overrun", None
         if rng.random() < mid:
             # a fragment: the content of the first master (starts at a non-root element)
             for n in nodes:
@@ -240,3 +209,45 @@ def safe_max(rng, kind):
     if kind in ("valid", "mid", "longhdr", "overrun"):
         return rng.choice(["def", "def", "none", "100000"])
     return rng.choice(["100000", "70000", "1000000", "6"])
+
+
+def make_overrun(rng, sp, nodes):
+    """the last element (in byte order) declares g bytes more than it has room for and the bytes are present: it overruns every
+    known-size ancestor, whatever lies between (in 60% of the cases its direct parent is made unknown-size, so the check has to look
+    through it).  Returns (data, offset of the element, id, declared size) or None."""
+    chain = []
+    ns = nodes
+    while ns and ns[-1].is_master():
+        chain.append(ns[-1])
+        ns = ns[-1].children
+    data = E.encode(nodes)
+    if len(chain) >= 2 and ns and rng.random() < 0.6 and not any(isinstance(x, tuple) for x in sp.get_path(chain[-1].tag[1])):
+        old_enc = chain[-1].enc
+        chain[-1].enc = "u"
+        if isinstance(chain[-2].enc, tuple) or chain[-2].enc == "u":
+            chain[-2].enc = None
+        try:
+            if E.unambiguous(sp, nodes):
+                data = E.encode(nodes)
+            else:
+                chain[-1].enc = old_enc
+        except AssertionError:
+            chain[-1].enc = old_enc
+            return None
+    if not any(not (c.enc == "u" or isinstance(c.enc, tuple)) for c in chain):
+        return None     # no known-size ancestor to overrun
+    items = []
+    E.encode(nodes, 0, items)
+    last = [(t, o) for (t, o) in items if t[0] not in "se"]
+    if not last:
+        return None
+    t, o = last[-1]
+    h = E.header_at(data, o)
+    if not (h and h[3] == 1 and h[2] is not None and o + h[1] + 1 + h[2] == len(data)):
+        return None
+    g = rng.choice([1, 2, 3])
+    if h[2] + g >= 127 or (sp.get_type(t[1]) in "UIF" and h[2] + g > 8):
+        return None
+    b = bytearray(data)
+    b[o + h[1]] = 0x80 | (h[2] + g)
+    return bytes(b) + bytes(rng.getrandbits(8) for _ in range(g)), o, t[1], h[2] + g
